@@ -251,8 +251,8 @@ def r_cfgdiff_macrosep(cx, off_tag="dev-none-stable", on_tag="dev-msep-stable"):
                     bases.append(".".join(ch[:-1]))
                     flds.append(ch[-1])
                 okp = len(set(bases)) == 1 and flds == ["byte_offset", "start", "line"] and bases[0] not in ("self", "")
-                cx.rules_run.append("R-OFFSET-PROVENANCE") if "R-OFFSET-PROVENANCE" not in cx.rules_run else None
-                cx.ob("R-OFFSET-PROVENANCE", "%s|insert_token|triple" % name.replace("Lexer::", ""), okp, F.file_line(F.site(x)),
+                cx.rules_run.append("R-INSERT-PROVENANCE") if "R-INSERT-PROVENANCE" not in cx.rules_run else None
+                cx.ob("R-INSERT-PROVENANCE", "%s|insert_token|triple" % name.replace("Lexer::", ""), okp, F.file_line(F.site(x)),
                       "the inserted token copies byte offset, char offset and line of one and the same token (%s)" % bases[0] if okp else
                       "insert_token position triple is not taken from one token record: %s" % list(zip(bases, flds)))
     # the predicate itself
